@@ -30,6 +30,7 @@ EXPLANATION = ("a: outer loop = Iterator::next on Range{_, config.max_cycles} bu
                "d: the rule loop's only normal exit is iterator exhaustion and no Facts mutator is reachable from the gates or the "
                "typed-core evaluator.")
 FLOORS = {"forward_loops": 2, "reachable_fns": 40}
+EXPLANATION += ' d (added): the activation-group marks are cleared before the rule loop of every pass (an Err return leaves a pass in the middle, so clearing at the end is not enough), and each pass walks the full get_rules_by_salience() - the list is not narrowed (retain / filter / &mut) before the walk.'
 
 RESULT = "GruleExecutionResult"
 FACTS = "engine::facts::Facts"
